@@ -1012,7 +1012,7 @@ impl Observer for AuthzObserver {
         // the echo of an own commit merges whatever commit is pending at that moment - which is
         // another one when the echoed commit was superseded meanwhile: judge what was applied
         let ev = match w.own_pending_before_delivery {
-            Some(p) if ev.author == who && p != idx && matches!(outcome, Outcome::Commit) && w.relay[p].author == who => {
+            Some(p) if (ev.author == who || w.relay[root_of(w, idx)].author == who) && p != idx && matches!(outcome, Outcome::Commit) && w.relay[p].author == who => {
                 self.classes.insert("own-echo-merged-a-newer-pending-commit".into());
                 &w.relay[p]
             }
@@ -1491,6 +1491,9 @@ impl Observer for ConfidentialityObserver {
             && dev.named.rogue.is_none()
             && !dev.named.removed.is_empty()
             && dev.author != who
+            // a re-wrapped copy of the receiver's own commit makes it merge whatever commit it has
+            // pending, which need not be that one
+            && w.relay[src].author != who
             && cl.cur.is_some()
             && cl.applied.last().map(|(a, seq, _)| *a == idx && *seq == w.delivery_seq).unwrap_or(false)
         {
